@@ -411,7 +411,13 @@ class Ops(object):
             return False
         if isinstance(a, HostFn) and isinstance(b, HostFn):
             if a.sym is not None and b.sym is not None:
-                return it.ctx.branch(a.sym.val == b.sym.val)
+                # == between host callables is host code: the same object is equal to itself, and two different objects may be equal as
+                # well (two bound-method objects of one method).  An uninterpreted symmetric relation on top of identity.
+                heq = z3.Function('host_eq', Val, Val, z3.BoolSort())
+                x, y = a.sym.val, b.sym.val
+                it.ctx.axiom(heq(x, y) == heq(y, x))
+                it.ctx.flags.add('host callables: == is identity or a host-defined equality (uninterpreted)')
+                return it.ctx.branch(z3.Or(x == y, heq(x, y)))
             return a is b
         return a is b
 
@@ -565,6 +571,10 @@ class Ops(object):
         if isinstance(base, TypeRef):
             return self.world.builtins.type_attr(it, base, name)
         if isinstance(base, HostFn):
+            if name == '_':
+                # same assumption as hasattr: only the emitter's own one-time wrappers carry `_`
+                it.ctx.flags.add('assume_host_callables_have_no_underscore_attr')
+                raise PyRaise('AttributeError', ExcInst('AttributeError'))
             raise OutOfReach('attribute %s of host callable' % name)
         raise OutOfReach('attribute %s of %r' % (name, base))
 
